@@ -392,3 +392,13 @@ def _add_general():
         for p in props_:
             P[p]["decided"].setdefault("%s.%s" % (p, fam), GENERAL[fam])
 _add_general()
+
+def _add_shared():
+    """clauses reported under a property through registry.ALSO get their text from the property that owns them"""
+    from sa import registry
+    for prop, srcs in registry.ALSO.items():
+        for src, clauses in srcs.items():
+            for c in clauses:
+                if c not in P[prop]["decided"] and c in P[src]["decided"]:
+                    P[prop]["decided"][c] = "(shared with %s) %s" % (src, P[src]["decided"][c])
+_add_shared()
